@@ -197,7 +197,7 @@ Proof.
   - unfold sstate_rel. cbn [g_in g_next g_rtmp_cache g_flv_cache]. split4; assumption.
   - unfold sstate_rel. cbn [g_in g_next g_rtmp_cache g_flv_cache]. split4; assumption.
   - unfold sstate_rel, set_subs. cbn [g_in g_next g_rtmp_cache g_flv_cache]. split4; assumption.
-  - unfold feed_rtp, sstate_rel. cbn [g_in g_next g_rtmp_cache g_flv_cache]. split4; assumption.
+  - unfold feed_rtp, feed_rtp_gen, sstate_rel. cbn [g_in g_next g_rtmp_cache g_flv_cache]. split4; assumption.
   - unfold sstate_rel. cbn [g_in g_next g_rtmp_cache g_flv_cache ss_in ss_n ss_rtmp ss_flv].
     split4; [reflexivity|assumption| |]; eapply cache_rel_clear; eassumption.
 Qed.
